@@ -417,11 +417,11 @@ Section Items.
         * exact (items_go_tree _ _ (x :: y :: l) Hi Hn [] [] eq_refl).
         * intros o H. exact (items_go_nums _ (x :: y :: l) Hn [] o H).
     - split; [reflexivity|]. intros o H. inversion H. reflexivity.
-    - destruct l as [|s l].
-      + split; [reflexivity|]. intros o H. inversion H. reflexivity.
-      + split; [|intros o H; inversion H; reflexivity].
-        cbn [enc_item tree_item option_map oprint]. rewrite fprint_FArr, map_map. reflexivity.
-    - split; [reflexivity|]. intros o H. inversion H. reflexivity.
+    - destruct p; (destruct l as [|s l];
+        [split; [reflexivity|]; intros o H; inversion H; reflexivity
+        |split; [|intros o H; inversion H; reflexivity];
+         cbn [enc_item tree_item option_map oprint]; rewrite fprint_FArr, map_map; reflexivity]).
+    - destruct p; (split; [reflexivity|]; intros o H; inversion H; reflexivity).
   Qed.
 
   Corollary marshal_json_tree i : marshal_json jw_tables i = option_map oprint (tree_of jw_tables i).
